@@ -152,6 +152,13 @@ void gen_history(Tape &t, Case &c, int maxlen, bool allow_copy, int solve_weight
       Op cc("chgcoef");
       cc.I(i).I(it->first).N(nv);
       if (model_apply(gm, cc, nullptr)) c.ops.push_back(cc);
+      if (t.chance(1, 3)) {     // the sense of a row decides the sign of its logical's matrix entry
+        static const char sn[] = {'L', 'G', 'E'};
+        int i2 = (int)t.below((uint32_t)gm.m());
+        Op cs("chgsense");
+        cs.I(0).I(i2).I(sn[t.below(3)]);
+        if (model_apply(gm, cs, nullptr)) c.ops.push_back(cs);
+      }
       if (t.chance(2, 3)) {
         Op cr("chgrhs");
         cr.I(i).N(gm.rows[i].rhs + gen_nz(t, 1));
